@@ -219,6 +219,8 @@ pub struct Sim {
     pub states: BTreeSet<u64>,
     /// leader commits whose index fewer than a quorum of nodes had on the leader's own record
     pub sub_quorum_commits: u64,
+    /// votes granted to a candidate whose log ended at a lower term or a lower index than the voter's
+    pub votes_for_stale_logs: u64,
     pub leader_commits: u64,
     /// per target: (first index of the last append batch delivered, the target's commit index before it, response kind)
     pub last_append: BTreeMap<u64, (u64, u64, &'static str)>,
@@ -247,6 +249,7 @@ impl Sim {
             states: BTreeSet::new(),
             last_append: BTreeMap::new(),
             sub_quorum_commits: 0,
+            votes_for_stale_logs: 0,
             leader_commits: 0,
         }
     }
@@ -320,6 +323,10 @@ impl Sim {
                 }
                 if req.kind() == "vote" && resp.is_ok() {
                     self.votes.push((req.target, req.index, req.term(), format!("{:?} term {}", before.state, before.term)));
+                    let (cand_term, cand_index) = req.log_position();
+                    if before.log_term > cand_term || before.log_index > cand_index {
+                        self.votes_for_stale_logs += 1;
+                    }
                 }
                 self.trace.push(format!("   -> {}", resp.kind()));
                 if self.net == Net::Faithful {
@@ -455,7 +462,18 @@ impl Sim {
                                     format!(
                                         "C28:two_nodes_committed_different_entries_at_one_index:{}{}",
                                         if self.net == Net::Adversarial { "adversarial_network" } else { "transport_faithful_network" },
-                                        if self.sub_quorum_commits > 0 { ":after_a_leader_committed_with_fewer_than_a_quorum_of_replicas_on_its_record" } else { "" }
+                                        if self.sub_quorum_commits > 0 {
+                                            ":after_a_leader_committed_with_fewer_than_a_quorum_of_replicas_on_its_record"
+                                        } else if self.votes_for_stale_logs > 0 {
+                                            ":after_a_vote_for_a_candidate_whose_log_was_behind_the_voters"
+                                        } else if self.violations.iter().any(|v| v.0.starts_with("C29:")) {
+                                            // the run had already elected a leader without an entry an earlier leader had committed
+                                            ":after_a_leader_was_elected_without_a_leader_committed_entry"
+                                        } else if self.violations.iter().any(|v| v.0.starts_with("C27:")) {
+                                            ":after_two_leaders_in_one_term"
+                                        } else {
+                                            ""
+                                        }
                                     ),
                                     format!(
                                         "index {}: node {who} committed (term {t}, data {d}), node {i} committed (term {}, data {})",
@@ -669,6 +687,7 @@ impl CaseEngine for Safety {
             if sim.leaders.len() > 1 {
                 rep.count("runs_with_leader_change");
             }
+            rep.add("votes_granted_to_candidates_whose_log_was_behind_the_voters", sim.votes_for_stale_logs as i64);
             rep.add("leader_commit_advances_observed", sim.leader_commits as i64);
             rep.add("leader_commit_advances_with_fewer_than_a_quorum_on_the_leaders_record", sim.sub_quorum_commits as i64);
             rep.max("max_committed_index", sim.first_commit.keys().max().copied().unwrap_or(0) as i64);
